@@ -40,7 +40,21 @@ def run_ops(obj, ops):
     for o in ops:
         try:
             if o[0] == 'get':
-                out.append(obj[o[1]])
+                # every way of reading one field agrees with obj[k]
+                try:
+                    r, present = obj[o[1]], True
+                except KeyError:
+                    r, present = None, False
+                ways = [('get(k, "dflt")', obj.get(o[1], 'dflt'), r if present else 'dflt'), ('get(k)', obj.get(o[1]), r if present else None),
+                        ('k in obj', o[1] in obj, present), ('k.lower() in keys()', o[1].lower() in obj.keys(), present),
+                        ('dict(items())[k.lower()]', dict(obj.items()).get(o[1].lower(), 'dflt'), r if present else 'dflt')]
+                diff = [(how, got, want) for how, got, want in ways if got != want or type(got) is not type(want)]
+                if diff:
+                    out.append(['differs', 'obj[%r] %s, but %s gives %r' % (o[1], 'is %r' % (r,) if present else 'raises KeyError', diff[0][0], diff[0][1])])
+                elif present:
+                    out.append(r)
+                else:
+                    raise KeyError(o[1])
             elif o[0] == 'set':
                 obj[o[1]] = o[2]
                 out.append(None)
